@@ -319,6 +319,8 @@ def reference(world):
         seen.add(m)
         if m in env.BASE_NAMES:
             continue
+        if m in parsed:
+            continue   # the module of that name has arrived already, inside a file known under another name
         if m not in users:
             failed[m] = set(['missing'])
             continue
@@ -345,18 +347,21 @@ def reference(world):
             for c in mods[:bad_at]:
                 parsed[c] = m
                 order.append(c)
-                if m in requested:
+                failed.pop(c, None)   # a name that could not be found as a file turned up as a module of another file
+                if m in requested or c in requested:
                     requested_canon.add(c)
-            failed[m] = set(['failed'])
-            if bad_at:
-                # earlier modules of the same file were already registered; the file name itself is reported failed
-                pass
+            if bad_at and m in mods[:bad_at]:
+                # the module the file is named after is fine: the failure is the later module's, under its own name
+                failed[mods[bad_at]] = set(['failed'])
+            else:
+                failed[m] = set(['failed'])
             todo.extend(imports.get(m, []) if bad_at else [])
             continue
         for c in mods:
             parsed[c] = m
             order.append(c)
-            if m in requested:
+            failed.pop(c, None)   # a name that could not be found as a file turned up as a module of another file
+            if m in requested or c in requested:
                 requested_canon.add(c)
         todo.extend(imports.get(m, []))
 
@@ -580,7 +585,8 @@ def judge(world, obs, sigbase, step_budget_factor=10):
         if idxs != sorted(idxs):
             v('sources-out-of-order', '%s: %r' % (m, idxs))
     for m in ref['closure']:
-        if m not in reads:
+        # (a name whose module already arrived inside a file known under another name needs no look-up of its own)
+        if m not in reads and m not in ref['parsed']:
             v('closure-module-never-looked-up', m)
     # borrowers: only for eligible, not-built modules, only matching flavour reaches the reader
     for e in log:
